@@ -84,6 +84,23 @@ def check_lang(R, key, what, dfa, spec, where=None):
     return False
 
 
+def check_lang_any(R, key, what, dfa, specs, where=None):
+    """the implementation's language must equal one of the acceptable variants of the definition
+    (operand order of commutative steps, order of independent statements)"""
+    best = None
+    for sp in specs:
+        sd = DFA(spec_nfa(sp))
+        diff = compare(dfa, sd)
+        if diff is None:
+            R.ok(key, "%s: event language equals the definition (%d DFA states, %d accepted variants; e.g. %s)" % (what, dfa.n_states(), len(specs), " ".join((dfa.enumerate_strings(3) or [[]])[-1][:10])), where)
+            return True
+        if best is None or len(diff["prefix"]) > len(best["prefix"]):
+            best = diff
+    side = "implementation" if best["only_in"] == 1 else "definition"
+    R.fail(key, "%s: event language differs from every accepted variant of the definition: after [%s] only the %s continues with %s" % (what, " ".join(best["prefix"][-8:]), side, best["next"]), best.get("where") or where, {"prefix": best["prefix"], "next": best["next"], "only_in": side})
+    return False
+
+
 def exec_regions(body, fb):
     cfg = normal_cfg(body)
     sb, st = kind_switch(body, fb)
